@@ -411,6 +411,101 @@ async fn db_folder_rows(acc: &mut Acc) {
     }
 }
 
+/// Vault header through the real `folders` table (in-memory SQLite with the
+/// repository's migrations): the insert path (`new_insert` +
+/// `insert_folder`) and the update path (`new_update` + `update_folder` over
+/// a row that was inserted from a plain vault with the same identifier),
+/// each read back with `find_one` and converted to a vault again.
+async fn db_folder_sql(acc: &mut Acc) {
+    use sos_database::entity::{AccountEntity, AccountRow, FolderEntity, FolderRecord, FolderRow};
+    let client = match sos_database::open_memory().await {
+        Ok(c) => c,
+        Err(e) => {
+            acc.fail("open_memory_error", format!("open_memory fails: {}", e), json!({"error": e.to_string()}));
+            return;
+        }
+    };
+    let account_row = AccountRow::new_insert(&sos_core::AccountId::random(), "codecx".to_owned()).unwrap();
+    let account_id: i64 = client
+        .conn_mut(move |conn| {
+            let account = AccountEntity::new(&conn);
+            Ok(account.insert(&account_row)?)
+        })
+        .await
+        .unwrap();
+    for (i, case) in vals::vaults().into_iter().enumerate() {
+        for path in ["insert", "update"] {
+            let label = format!("{}:{}", path, case.label);
+            if acc.skip(&label) {
+                continue;
+            }
+            acc.cases += 1;
+            acc.evals += 1;
+            // every case gets its own folder identifier (the table has a
+            // unique index on it)
+            let mut v = case.value.clone();
+            let fid = vals::uid((i as u8) * 2 + if path == "insert" { 1 } else { 2 });
+            *v.header_mut().id_mut() = fid;
+            let want = vals::header_proj(v.header(), v.shared_access());
+            let wit = |extra: Value| json!({"engine": "codecx", "format": "database_sql", "type": "FolderRow(sql)", "case": label, "value": clip(&want), "detail": extra});
+            let row = if path == "insert" { FolderRow::new_insert(&v).await } else { FolderRow::new_update(&v).await };
+            let row = match row {
+                Ok(r) => r,
+                Err(e) => {
+                    acc.fail("to_row_error", format!("FolderRow::new_{} fails: {}", path, e), wit(json!({"error": e.to_string()})));
+                    continue;
+                }
+            };
+            acc.distinct.insert(Sha256::digest(format!("{}{:?}", path, row).as_bytes()).into());
+            let plain = if path == "update" {
+                let mut p = sos_vault::Vault::default();
+                *p.header_mut().id_mut() = fid;
+                Some(FolderRow::new_insert(&p).await.unwrap())
+            } else {
+                None
+            };
+            let res: Result<FolderRow, sos_database::Error> = client
+                .conn_mut(move |conn| {
+                    let folder = FolderEntity::new(&conn);
+                    if let Some(plain) = plain {
+                        folder.insert_folder(account_id, &plain)?;
+                        folder.update_folder(&fid, &row)?;
+                    } else {
+                        folder.insert_folder(account_id, &row)?;
+                    }
+                    Ok(folder.find_one(&fid)?)
+                })
+                .await
+                .map_err(Into::into);
+            let stored = match res {
+                Ok(r) => r,
+                Err(e) => {
+                    acc.fail(&format!("sql_error:{}", path), format!("folders table {} fails: {}", path, e), wit(json!({"error": e.to_string()})));
+                    continue;
+                }
+            };
+            let back = match FolderRecord::from_row(stored).await.and_then(|r| r.into_vault()) {
+                Ok(b) => b,
+                Err(e) => {
+                    acc.fail(&format!("from_row_error:{}", norm_msg(&e.to_string())), format!("reading the stored folder row back fails: {}", e), wit(json!({"error": e.to_string()})));
+                    continue;
+                }
+            };
+            let mut got = vals::header_proj(back.header(), back.shared_access());
+            let mut want = want.clone();
+            if let (Some(w), Some(g)) = (want.as_object_mut(), got.as_object_mut()) {
+                // no column for the shared-access list (see db_folder_rows)
+                w.remove("shared_access");
+                g.remove("shared_access");
+            }
+            if let Some((np, p, a, b)) = first_diff(&want, &got, &mut vec![]) {
+                let np = np.split('.').next().unwrap_or("").to_string();
+                acc.fail(&format!("roundtrip_mismatch:{}:{}", path, np), format!("Vault header -> folders table ({}) -> Vault differs at {}", path, np), wit(json!({"path": p, "expected": clip(&a), "got": clip(&b)})));
+            }
+        }
+    }
+}
+
 async fn db_secret_rows(acc: &mut Acc) {
     use sos_database::entity::{SecretRecord, SecretRow};
     for (i, case) in vals::vault_commits().into_iter().enumerate() {
@@ -455,7 +550,7 @@ const TYPES: &[&str] = &[
     "wire:MergeOutcome", "wire:NetworkChangeEvent", "wire:DiffRequest", "wire:DiffResponse", "wire:PatchRequest",
     "wire:PatchResponse", "wire:ScanRequest", "wire:ScanResponse", "wire:ExternalFile", "wire:FileSet", "wire:FileTransfersSet",
     // database rows
-    "db:EventRecordRow", "db:FolderRow", "db:SecretRow",
+    "db:EventRecordRow", "db:FolderRow", "db:SecretRow", "db:FolderRow(sql)",
 ];
 
 async fn run_type(name: &str, only: Option<String>) -> Value {
@@ -527,6 +622,7 @@ async fn run_type(name: &str, only: Option<String>) -> Value {
         "db:EventRecordRow" => db_event_rows(a).await,
         "db:FolderRow" => db_folder_rows(a).await,
         "db:SecretRow" => db_secret_rows(a).await,
+        "db:FolderRow(sql)" => db_folder_sql(a).await,
         other => panic!("unknown type {}", other),
     }
     acc.to_json()
